@@ -354,6 +354,7 @@ func init() {
 				c04Panics(c)
 				c04StringAccess(c)
 			}},
+			{ID: "C04.R9", Doc: "token consumers are total: the helpers of the parser core that receive token text (parseField, the string decoder, …) raise no index/slice out of range on any short token (folded over all strings over `-+0.1e\"a` up to length 3)", Run: c04ConsumersTotal},
 			{ID: "C04.R6", Doc: "determinism: no map range, go statement, select, package-level state, time or randomness in the parse closure", Run: c04Determinism},
 			{ID: "C04.R7", Doc: "ParseFile = os.ReadFile(path); error => (nil, err); otherwise ParseObject(string(data)) unchanged", Run: c04ParseFile},
 			{ID: "C04.R8", Doc: "wrappers ParseList/ParseObject", Run: func(c *Ctx) { wrapperRule(c, "C04.R8") }},
@@ -1370,4 +1371,93 @@ func collectInts(t Term, out *[]Term) {
 			collectInts(e, out)
 		}
 	}
+}
+
+// c04ConsumersTotal folds every helper of the parser core that takes token text (a string parameter; not the machines and their wrappers,
+// whose input access is decided by C04.R5) over all short tokens: on every path, conditions are evaluated in order (a condition that
+// cannot be folded — the result of a library call — leaves both outcomes open) and every index/slice of a string that is reached must be
+// within bounds.
+func c04ConsumersTotal(c *Ctx) {
+	n := 0
+	machines := map[string]bool{"parseList": true, "parseObject": true, "ParseList": true, "ParseObject": true, "ParseFile": true}
+	for _, fd := range parserCore(c) {
+		name := declName(fd)
+		if machines[name] {
+			continue
+		}
+		par := soleStringParam(c, fd)
+		if par == nil {
+			continue
+		}
+		n++
+		ob := c.Ob("C04.R9", name+"/total", fd.Pos())
+		paths := c.NewSX().Run(fd)
+		bad, undec := "", ""
+		for _, p := range paths {
+			if p.Why != "" {
+				undec = p.Why
+			}
+		}
+		inputs := shortStrings("-+0.1e\"a", 3)
+		for _, in := range inputs {
+			if bad != "" || undec != "" {
+				break
+			}
+			hook := func(t Term) (sval, bool) {
+				if isParamTerm(t, par) {
+					return sval{K: 's', S: in}, true
+				}
+				return sval{}, false
+			}
+			for _, p := range paths {
+				feasible := true
+				check := func(t Term) {
+					collectSubterms(t, func(u Term) {
+						switch u.(type) {
+						case TIndex, TSlice:
+							se := &strEnv{hook: hook}
+							se.val(u)
+							if se.panic != "" && bad == "" {
+								bad = "token " + strconv.Quote(in) + ": " + c.termStr(u) + ": " + se.panic
+							}
+						}
+					})
+				}
+				for _, st := range p.Steps {
+					if !feasible || bad != "" {
+						break
+					}
+					if st.Kind == "cond" {
+						// sub-terms of the condition are evaluated left to right with short-circuiting by SX's path split: each atom is its own step
+						check(st.Cond.T)
+						se := &strEnv{hook: hook}
+						v, ok := se.val(st.Cond.T)
+						if ok && se.panic == "" && v.K == 'b' && v.B != st.Cond.Truth {
+							feasible = false
+						}
+						continue
+					}
+					check(st.LHS)
+					check(st.RHS)
+					if st.Call != nil {
+						check(*st.Call)
+					}
+				}
+				if feasible && bad == "" {
+					for _, v := range p.Vals {
+						check(v)
+					}
+				}
+			}
+		}
+		switch {
+		case undec != "":
+			ob.Undecided("helper outside the path vocabulary: %s", undec)
+		case bad != "":
+			ob.Fail("a token makes the parser panic instead of returning an error: %s", bad)
+		default:
+			ob.Ok("no index or slice of a string goes out of range on any of the %d tokens of length <= 3", len(inputs))
+		}
+	}
+	c.R.Floor("C04.R9", n, 2)
 }
